@@ -242,9 +242,12 @@ def run(ctx):
                 old = fit_fractions(amp, mc, V, {}, 17, res_names, method="old")
                 new = fit_fractions(amp, mc, V, {}, 17, res_names, method="new")
                 f_new, e_new = new.get_frac(error_matrix=V, sum_diag=False)
+                # a report is a pure function of the integrated object: asking again (with and without sum_diag) must not change it
+                new.get_frac(error_matrix=V, sum_diag=True)
+                f_new2, e_new2 = new.get_frac(error_matrix=V, sum_diag=False)
                 cfg.inv_he = V
                 cl = cfg.cal_fitfractions(mcdata=mc, res=res_names, batch=13)
-            for label, errs in (("old", old[1]), ("new", e_new), ("ConfigLoader.cal_fitfractions", cl[1])):
+            for label, errs in (("old", old[1]), ("new", e_new), ("new (third report of the same object)", e_new2), ("ConfigLoader.cal_fitfractions", cl[1])):
                 worst = 0.0
                 bad = None
                 for k in base:
